@@ -152,6 +152,6 @@ func (mc *MemCore) clone() *MemCore {
 		LevelEnabler: mc.LevelEnabler,
 		enc:          mc.enc.Clone(),
 		r:            mc.r,
-		mu:           &sync.RWMutex{},
+		mu:           mc.mu, // the clone shares the ring, so it must share the lock that guards it
 	}
 }
